@@ -55,6 +55,8 @@ class RunnerProxy(object):
             st["depth"] -= 1
         ev["status"] = STATUS.get(status, status)
         ev["seq_end"] = len(recorder.TRACE)
+        if st.get("post") and st["depth"] == 0:
+            ev["post"] = st["post"]()
         return status
 
     def close(self):
@@ -79,7 +81,9 @@ def framer_snapshot(fr):
             "activeShr": fr.activeShr.value,
             "elapsed": fr.elapsedShr.value,
             "recurred": fr.recurredShr.value,
-            "main": fr.main.name if getattr(fr, "main", None) is not None else None,
+            "main": ([fr.main.framer.name if hasattr(fr.main.framer, "name") else fr.main.framer, fr.main.name]
+                     if getattr(fr, "main", None) is not None else None),
+            "sched": SCHED.get(fr.schedule, fr.schedule),
             "period": fr.period}
 
 
@@ -95,7 +99,7 @@ def all_framers(house):
 
 
 def run_text(text, period=0.125, maxticks=64, watch=(), boom=None, build_only=False,
-             real=False, tick_hook=None, proxies=True, keep=None, behaviors=None):
+             real=False, tick_hook=None, proxies=True, keep=None, behaviors=None, post=False):
     """Build and run `text`.  Returns a Result with
        .built, .build_error, .trace (recorder events), .sends, .ticks (snapshots
        at each changeStamp call), .exc (exception leaving run()), .capped, .skedder"""
@@ -111,6 +115,21 @@ def run_text(text, period=0.125, maxticks=64, watch=(), boom=None, build_only=Fa
     sk = skedding.Skedder(name="vf", period=period, real=real, filepath=path,
                           behaviors=list(behaviors or ["vf.flo.recorder"]))
     res.skedder = sk
+    res.build_msgs = []
+
+    class BuildSpy(object):
+        def __init__(self, real):
+            self._real = real
+
+        def terse(self, msg):
+            res.build_msgs.append(msg.strip()[:300])
+            return self._real.terse(msg)
+
+        def __getattr__(self, name):
+            return getattr(self._real, name)
+    from ioflo.base import building as _building
+    real_bc = _building.console
+    _building.console = BuildSpy(real_bc)
     try:
         res.built = bool(sk.build())
     except BaseException as e:
@@ -119,6 +138,7 @@ def run_text(text, period=0.125, maxticks=64, watch=(), boom=None, build_only=Fa
         res.built = False
         res.build_error = e
     finally:
+        _building.console = real_bc
         try:
             os.unlink(path)
             os.rmdir(d)
@@ -129,8 +149,11 @@ def run_text(text, period=0.125, maxticks=64, watch=(), boom=None, build_only=Fa
 
     state = {"tick": 0, "pos": 0, "depth": 0, "sweep": False}
     house0 = sk.houses[0]
-    recorder.reset(watch=watch, store=house0.store, boom=boom)
+    recorder.reset(watch=watch, store=house0.store, boom=boom,
+                   framers=[f for f in house0.framers if f.schedule in (AUX, SLAVE)] if post else None)
     res.trace = recorder.TRACE
+
+    state["post"] = (lambda: {fr.name: framer_snapshot(fr) for fr in house0.framers}) if post else None
 
     def snap(house):
         return {"tick": state["tick"], "stamp": house.store.stamp, "seq": len(recorder.TRACE),
